@@ -132,18 +132,17 @@ def base_flags(opt="-O1", guard=True):
 
 
 def _gc_build(keep):
-    """Remove cached build directories of other tree states (disk is limited)."""
+    """Remove cached build directories of old tree states (disk is limited).  Only directories that were not used for
+    three hours are removed, and the eight most recently used are always kept: other checks (or scratch-worktree runs
+    through VERIF_REPO) may be building in them right now."""
     try:
-        for d in os.listdir(BUILD):
-            p = os.path.join(BUILD, d)
-            if d.startswith("t-") and d != keep and os.path.isdir(p):
-                # keep the most recent 3 tree states
-                pass
+        now = time.time()
         ds = sorted([d for d in os.listdir(BUILD) if d.startswith("t-")],
                     key=lambda d: os.path.getmtime(os.path.join(BUILD, d)), reverse=True)
-        for d in ds[4:]:
-            if d != keep:
-                shutil.rmtree(os.path.join(BUILD, d), ignore_errors=True)
+        for d in ds[8:]:
+            p = os.path.join(BUILD, d)
+            if d != keep and now - os.path.getmtime(p) > 3 * 3600:
+                shutil.rmtree(p, ignore_errors=True)
     except OSError:
         pass
 
